@@ -135,6 +135,8 @@ def _is_qf(f) -> bool:
         return True
     i = f.get_id()
     r = _QF_CACHE.get(i)
+    if r is not None:
+        r = r[1]
     if r is None:
         todo, r, seen = [f], True, set()
         while todo:
@@ -147,7 +149,7 @@ def _is_qf(f) -> bool:
                 continue
             seen.add(k)
             todo.extend(t.children())
-        _QF_CACHE[i] = r
+        _QF_CACHE[i] = (f, r)   # the term is kept alive with its entry: z3 re-uses the ids of freed terms
     return r
 
 
@@ -443,7 +445,7 @@ class Ex:
                 raise Unsupported("del " + self.site(t))
 
     def st_If(self, s):
-        c = self.truth(self.ev(s.test))
+        c = self.ev_truth((s.test))
         if self.branch(c, "if " + self.site(s.test)):
             self._narrow(s.test, True)
             self.exec_block(s.body)
@@ -481,7 +483,7 @@ class Ex:
         raise Unsupported("raise " + self.site(s.exc))
 
     def st_Assert(self, s):
-        c = self.truth(self.ev(s.test))
+        c = self.ev_truth((s.test))
         self.oblige(f"assert[{self.site(s.test)}]", c, kind="assert")
         self.assume(c)
 
@@ -744,7 +746,7 @@ class Ex:
         self._havoc(s.body, ls)
         for nm, f in ls.inv(self, None):
             self.assume(f)
-        t = self.truth(self.ev(s.test))
+        t = self.ev_truth((s.test))
         if c == 0:
             self.assume(t)
             self.cover(f"loop{ordn}.body")
@@ -835,7 +837,7 @@ class Ex:
             k = cont.kty.unwrap(idx)
             return cont.with_(dom=z3.Store(cont.dom, k, True), val=z3.Store(cont.val, k, cont.vty.unwrap(v)))
         if isinstance(cont, VList):
-            i = TInt.unwrap(idx)
+            i = self._list_index(cont, idx)
             self.oblige(f"no-IndexError[{self.site(node)}]", z3.And(i >= 0, i < cont.n), kind="safety", site=self.site(node))
             return VList(cont.n, z3.Store(cont.arr, i, cont.ety.unwrap(v)), cont.ety)
         raise Unsupported(f"item store on {cont!r}")
@@ -848,7 +850,7 @@ class Ex:
             self.implicit_exc("KeyError", z3.Select(cont.dom, k), self.site(t))
             new = cont.with_(dom=z3.Store(cont.dom, k, False))
         elif isinstance(cont, VList):
-            i = TInt.unwrap(idx)
+            i = self._list_index(cont, idx)
             self.implicit_exc("IndexError", z3.And(i >= 0, i < cont.n), self.site(t))
             j = self.fresh_term(z3.IntSort(), "j")
             arr = self.fresh_term(cont.arr.sort(), "del")
@@ -860,6 +862,14 @@ class Ex:
         h = getattr(self.spec, "on_mutation", None)
         if h is not None:
             h(self, self.site(t.value), "del", t, (cont, idx))
+
+    @staticmethod
+    def _list_index(cont, idx):
+        """position addressed by a list subscript: Python counts a negative index from the end"""
+        if isinstance(idx, int) and not isinstance(idx, bool):
+            return cont.n + idx if idx < 0 else z3.IntVal(idx)
+        i = TInt.unwrap(idx)
+        return z3.If(i < 0, i + cont.n, i)
 
     def implicit_exc(self, cls, ok, site):
         """An operation that raises `cls` unless `ok`."""
@@ -985,7 +995,7 @@ class Ex:
         return VFunc(e, self.scope, "<lambda>")
 
     def ex_IfExp(self, e):
-        if self.branch(self.truth(self.ev(e.test)), "ifexp " + self.site(e.test)):
+        if self.branch(self.ev_truth((e.test)), "ifexp " + self.site(e.test)):
             self._narrow(e.test, True)
             return self.ev(e.body)
         self._narrow(e.test, False)
@@ -1006,10 +1016,10 @@ class Ex:
         return VOpaque("fstring", parts)
 
     def ex_UnaryOp(self, e):
-        v = self.ev(e.operand)
         if isinstance(e.op, ast.Not):
-            t = self.truth(v)
+            t = self.ev_truth(e.operand)
             return (not t) if isinstance(t, bool) else VBool(z3.Not(t))
+        v = self.ev(e.operand)
         if isinstance(e.op, ast.USub):
             if isinstance(v, (int, float)):
                 return -v
@@ -1024,13 +1034,45 @@ class Ex:
                 return VBits(~v.t, v.ty)
         raise Unsupported("unary " + self.site(e))
 
-    def ex_BoolOp(self, e):
+    def ev_truth(self, node):
+        """truth value of an expression in a test position (if / while / assert / conditional expression / not / a
+        comprehension's condition): only its truth matters there, so `a and b` may be merged into one formula"""
+        if isinstance(node, ast.BoolOp):
+            return self.truth(self.ex_BoolOp(node, True))
+        return self.truth(self.ev(node))
+
+    @staticmethod
+    def _syntactically_bool(n):
+        if isinstance(n, ast.Compare) or (isinstance(n, ast.UnaryOp) and isinstance(n.op, ast.Not)):
+            return True
+        if isinstance(n, ast.Constant):
+            return isinstance(n.value, bool)
+        if isinstance(n, ast.BoolOp):
+            return all(Ex._syntactically_bool(v) for v in n.values)
+        if isinstance(n, ast.Call) and isinstance(n.func, ast.Name) and n.func.id in ("isinstance", "issubclass", "hasattr", "callable", "bool", "any", "all"):
+            return True
+        return False
+
+    def ex_BoolOp(self, e, truth_ctx=False):
         is_and = isinstance(e.op, ast.And)
+        if not truth_ctx and not all(self._syntactically_bool(v) for v in e.values):
+            # value position (`x = a or b`, `return a and b`, an argument): Python yields the deciding OPERAND, not its truth
+            # value - evaluated exactly, one path per outcome
+            v = None
+            for i, sub in enumerate(e.values):
+                v = self.ev(sub)
+                if i + 1 == len(e.values):
+                    return v
+                t = self.truth(v)
+                decided = self.branch(t if not is_and else (not t if isinstance(t, bool) else z3.Not(t)), ("and " if is_and else "or ") + self.site(sub))
+                if decided:
+                    return v
+            return v
         acc = None  # z3 Bool accumulated
         mine = []  # short-circuit assumptions added here (removed afterwards; facts assumed by callees stay)
         try:
             for i, sub in enumerate(e.values):
-                v = self.ev(sub)
+                v = self.ex_BoolOp(sub, True) if truth_ctx and isinstance(sub, ast.BoolOp) else self.ev(sub)
                 t = self.truth(v)
                 if isinstance(t, bool):
                     if is_and and not t:
@@ -1043,6 +1085,10 @@ class Ex:
                 acc = t if acc is None else (z3.And(acc, t) if is_and else z3.Or(acc, t))
                 # later operands are only evaluated when this one did not decide
                 g = t if is_and else z3.Not(t)
+                if i + 1 < len(e.values) and not self.feasible(g):
+                    # on this path the operand decides: Python does not evaluate the rest (evaluating it under the
+                    # contradictory assumption would let a fork inside it end the whole path - a lost behaviour)
+                    break
                 self.pc.append(g)
                 mine.append(g)
             if acc is None:
@@ -1329,10 +1375,7 @@ class Ex:
             self.implicit_exc("KeyError", z3.Select(cont.dom, k), self.site(node))
             return cont.vty.wrap(z3.Select(cont.val, k))
         if isinstance(cont, VList):
-            if isinstance(idx, int) and idx < 0:
-                i = cont.n + idx
-            else:
-                i = TInt.unwrap(idx)
+            i = self._list_index(cont, idx)
             self.implicit_exc("IndexError", z3.And(i >= 0, i < cont.n), self.site(node))
             return cont.ety.wrap(z3.Select(cont.arr, i))
         if isinstance(cont, (VTuple, tuple, list)):
@@ -1377,7 +1420,7 @@ class Ex:
                 old, self.scope = self.scope, sc
                 try:
                     self.assign(g.target, x)
-                    conds = [self.truth(self.ev(c)) for c in g.ifs]
+                    conds = [self.ev_truth((c)) for c in g.ifs]
                     if all(isinstance(c, bool) for c in conds):
                         if all(conds):
                             out.append(self.ev(e.elt))
@@ -1394,7 +1437,7 @@ class Ex:
             try:
                 self.assign(g.target, it.ety.wrap(x))
                 self.pc.append(it.t[x])
-                conds = [_z(self.truth(self.ev(c))) for c in g.ifs]
+                conds = [_z(self.ev_truth((c))) for c in g.ifs]
                 for c in conds:
                     self.pc.append(c)
                 elt = self.ev(e.elt)
@@ -1475,8 +1518,8 @@ class Ex:
                 parts = []
                 for x in it:
                     self.assign(g.target, x)
-                    conds = [self.truth(self.ev(c)) for c in g.ifs]
-                    t = self.truth(self.ev(e.elt))
+                    conds = [self.ev_truth((c)) for c in g.ifs]
+                    t = self.ev_truth((e.elt))
                     if mode == "any":
                         parts.append(z3.And(*[_z(c) for c in conds], _z(t)))
                     else:
@@ -1491,10 +1534,10 @@ class Ex:
                 try:
                     self.assign(g.target, it.ety.wrap(x))
                     self.pc.append(it.t[x])
-                    conds = [_z(self.truth(self.ev(c))) for c in g.ifs]
+                    conds = [_z(self.ev_truth((c))) for c in g.ifs]
                     for c in conds:
                         self.pc.append(c)
-                    t = _z(self.truth(self.ev(e.elt)))
+                    t = _z(self.ev_truth((e.elt)))
                 finally:
                     del self.pc[saved:]
                 if mode == "any":
@@ -1507,10 +1550,10 @@ class Ex:
                     rng = z3.And(k >= 0, k < it.n)
                     self.pc.append(rng)
                     self.assign(g.target, it.ety.wrap(it.arr[k]))
-                    conds = [_z(self.truth(self.ev(c))) for c in g.ifs]
+                    conds = [_z(self.ev_truth((c))) for c in g.ifs]
                     for c in conds:
                         self.pc.append(c)
-                    t = _z(self.truth(self.ev(e.elt)))
+                    t = _z(self.ev_truth((e.elt)))
                 finally:
                     del self.pc[saved:]
                 if mode == "any":
